@@ -8,6 +8,7 @@ from fdlstatic import cfg as cfg_lib
 from fdlstatic import regexlang as rl
 from fdlstatic.ctx import Ctx, kwarg
 from fdlstatic.model import AnalysisError, unparse, walk_function, walk_stmts
+from fdlstatic import roles
 from fdlstatic.report import RuleSet
 from fdlstatic.rules import c10
 
@@ -156,12 +157,33 @@ def run(ctx: Ctx, rs: RuleSet, tier: str):
              'cannot be written back', ctx.loc(m, m.node))
   # parser group -> element
   pp = ctx.func(f'{DX}.parse_path')
-  src = unparse(pp.node)
-  ok = ("daglish.Attr(match_dict['attr_name'])" in src and
-        "daglish.Key(ast.literal_eval(match_dict['key']))" in src)
+  mvars = roles.assigned_from(pp, lambda e: isinstance(e, ast.Call) and
+                              unparse(e.func) == '_PATH_PART.match')
+  gd = roles.assigned_from(pp, lambda e: isinstance(e, ast.Call) and
+                           isinstance(e.func, ast.Attribute) and
+                           e.func.attr == 'groupdict' and
+                           unparse(e.func.value) in mvars)
+
+  def _group(e, name):
+    return (isinstance(e, ast.Subscript) and unparse(e.value) in gd and
+            isinstance(e.slice, ast.Constant) and e.slice.value == name)
+
+  ok_attr = ok_key = False
+  for c in ctx.calls(pp):
+    if unparse(c.func) == 'daglish.Attr' and len(c.args) == 1 and _group(
+        c.args[0], 'attr_name'):
+      ok_attr = True
+    if unparse(c.func) == 'daglish.Key' and len(c.args) == 1 and isinstance(
+        c.args[0], ast.Call) and unparse(
+            c.args[0].func) == 'ast.literal_eval' and len(
+                c.args[0].args) == 1 and _group(c.args[0].args[0], 'key'):
+      ok_key = True
+  ok = ok_attr and ok_key
   g = ctx.cfg(pp)
-  nomatch = [n for n in g.nodes() if g.kind[n] == 'if' and unparse(
-      g.stmt[n].test) == 'not match']
+  nomatch = [n for n in g.nodes() if g.kind[n] == 'if' and isinstance(
+      g.stmt[n].test, ast.UnaryOp) and isinstance(
+          g.stmt[n].test.op, ast.Not) and unparse(
+              g.stmt[n].test.operand) in mvars]
   loud = bool(nomatch) and all(
       g.exit not in g.reach([x for x, lab in g.succ[n] if lab == 'true'],
                             blocked={n}, labels=cfg_lib.NO_EXC)
@@ -196,17 +218,25 @@ def run(ctx: Ctx, rs: RuleSet, tier: str):
   rs.check(ok, rule, f'{sv.qualname}:split',
            'the assignment is split at the first "=" only',
            ctx.loc(sv, sv.node))
-  ok = False
+  # *<parents>, <last> = <parsed path>
+  PARENTS = LAST = None
   for n in walk_function(sv.node):
-    if isinstance(n, ast.For) and unparse(n.iter) == 'parents':
-      ok = any(isinstance(s, ast.Assign) and unparse(s.value) ==
-               f'{unparse(n.target)}.follow({unparse(s.targets[0])})'
-               for s in n.body)
-  star = any(isinstance(n, ast.Assign) and isinstance(
-      n.targets[0], ast.Tuple) and isinstance(
-          n.targets[0].elts[0], ast.Starred) and
-             unparse(n.targets[0].elts[0].value) == 'parents'
-             for n in walk_function(sv.node))
+    if isinstance(n, ast.Assign) and isinstance(
+        n.targets[0], ast.Tuple) and len(n.targets[0].elts) == 2 and isinstance(
+            n.targets[0].elts[0], ast.Starred) and isinstance(
+                n.targets[0].elts[1], ast.Name):
+      PARENTS = unparse(n.targets[0].elts[0].value)
+      LAST = n.targets[0].elts[1].id
+  star = PARENTS is not None
+  ok = False
+  WALK = None
+  for n in walk_function(sv.node):
+    if isinstance(n, ast.For) and unparse(n.iter) == PARENTS:
+      for s_ in n.body:
+        if isinstance(s_, ast.Assign) and unparse(s_.value) == (
+            f'{unparse(n.target)}.follow({unparse(s_.targets[0])})'):
+          ok = True
+          WALK = unparse(s_.targets[0])
   rs.check(ok and star, rule, f'{sv.qualname}:walk',
            'all but the last element are followed in order from cfg',
            ctx.loc(sv, sv.node))
@@ -225,9 +255,10 @@ def run(ctx: Ctx, rs: RuleSet, tier: str):
         if kinds:
           sinks['<default>'] = ' '.join(unparse(s) for s in chain.orelse)
         break
-  ok = ('setattr(walk, last.name, literal_value)' in sinks.get('Attr', '') and
-        'walk[last.key] = literal_value' in sinks.get('Key', '') and
-        'raise' in sinks.get('<default>', ''))
+  vals = roles.assigned_from(sv, roles.call_of('parse_value'))
+  ok = ('raise' in sinks.get('<default>', '') and any(
+      f'setattr({WALK}, {LAST}.name, {v})' in sinks.get('Attr', '') and
+      f'{WALK}[{LAST}.key] = {v}' in sinks.get('Key', '') for v in vals))
   rs.check(ok, rule, f'{sv.qualname}:sinks',
            f'sinks: {sinks}', ctx.loc(sv, sv.node))
 
@@ -251,13 +282,22 @@ def run(ctx: Ctx, rs: RuleSet, tier: str):
   if val is None:
     raise AnalysisError('FiddleFlag.value property not found')
 
-  def compared_constants(f, var='command'):
-    out = set()
+  def compared_constants(f, var=None):
+    """String constants one variable is compared with (`x == 'set'`); the
+
+    variable is the one with most such comparisons unless given.
+    """
+    by_var = {}
     for n in walk_function(f.node):
-      if isinstance(n, ast.Compare) and unparse(n.left) == var and isinstance(
-          n.ops[0], ast.Eq) and isinstance(n.comparators[0], ast.Constant):
-        out.add(n.comparators[0].value)
-    return out
+      if isinstance(n, ast.Compare) and isinstance(
+          n.left, ast.Name) and len(n.ops) == 1 and isinstance(
+              n.ops[0], ast.Eq) and isinstance(
+                  n.comparators[0], ast.Constant) and isinstance(
+                      n.comparators[0].value, str):
+        by_var.setdefault(n.left.id, set()).add(n.comparators[0].value)
+    if var is not None:
+      return by_var.get(var, set())
+    return max(by_var.values(), key=len) if by_var else set()
 
   dispatched = compared_constants(val)
   pc = ctx.func(f'{FL}.FiddleFlag._parse_config')
@@ -326,11 +366,35 @@ def run(ctx: Ctx, rs: RuleSet, tier: str):
   if ok:
     body = g.reach([x for x, lab in g.succ[loops[0]] if lab == 'true'],
                    blocked={loops[0]}, labels=cfg_lib.NO_EXC)
-    txt = ' '.join(g.describe(x) for x in body)
-    ok = ('utils.set_value(self._value, expression)' in txt and
-          'self._apply_fiddler(self._value, expression)' in txt and
-          'self._parse_config(command, expression)' in txt and
-          '.pop(0)' in txt)
+    S = val.params[0]
+    CMD = EXPR = None
+    for x in body:
+      st = g.stmt[x]
+      if isinstance(st, ast.Assign) and isinstance(
+          st.targets[0], ast.Tuple) and len(
+              st.targets[0].elts) == 2 and isinstance(
+                  st.value, ast.Call) and isinstance(
+                      st.value.func, ast.Attribute) and (
+                          st.value.func.attr == 'groups'):
+        CMD, EXPR = [unparse(e) for e in st.targets[0].elts]
+    calls = [e for x in body for e in cfg_lib.walk_node(g, x)
+             if isinstance(e, ast.Call)]
+    cur = f'{S}._value'
+    sets = any(unparse(c.func).endswith('set_value') and
+               [unparse(a) for a in c.args] == [cur, EXPR] for c in calls)
+    fiddles = any(
+        isinstance(g.stmt[x], ast.Assign) and unparse(
+            g.stmt[x].targets[0]) == cur and isinstance(
+                g.stmt[x].value, ast.Call) and unparse(
+                    g.stmt[x].value.func) == f'{S}._apply_fiddler' and
+        [unparse(a) for a in g.stmt[x].value.args] == [cur, EXPR]
+        for x in body)
+    parses = any(unparse(c.func) == f'{S}._parse_config' and
+                 [unparse(a) for a in c.args] == [CMD, EXPR] for c in calls)
+    pops = any(isinstance(c.func, ast.Attribute) and c.func.attr == 'pop' and
+               unparse(c.func.value) == f'{S}._remaining_directives' and
+               [unparse(a) for a in c.args] == ['0'] for c in calls)
+    ok = sets and fiddles and parses and pops
   rs.check(ok, rule, f'{val.qualname}:apply-in-order',
            'config / set / fiddler are applied inside the draining loop, in '
            'the order they are popped', ctx.loc(val, val.node))
